@@ -2,12 +2,43 @@
  * (constant tables generated from their definitions: floor(2^32 |sin i|), cube/square roots of primes), including the
  * Merkle-Damgard padding (0x80, zeros, 64-bit bit length; little endian for MD5, big endian for SHA).
  * Cell: ALG (0 md5, 1 sha1, 2 sha256), LEN = message length, PAT = fill pattern, FROM_STRING = constructor overload,
- * HEX = compare hex() (exact vasprintf model for %08X, stub_printf.h) instead of bin().
- * Symbolic: ONE byte of the message: position in [0, LEN) and value (NFREE = 0: fully concrete message; the verdict is then
+ * HEX = compare hex() (exact vasprintf model for sequences of %08X, below) instead of bin().
+ * Symbolic: ONE byte of the message: value, and position in [0, LEN) unless the cell fixes POS (NFREE = 0: fully concrete message; the verdict is then
  * a concrete evaluation by the solver's constant propagation). A digest miter with >= 3 free bytes is beyond the solver. */
-#define VERIF_PRINTF_CAP 72
-#include "stub_printf.h"
+#include <stdarg.h>
+#include <stdlib.h>
 #include "harness.h"
+/* exact vasprintf model for the only formats hex() uses: a sequence of "%08X" conversions (PRIX32 == "X") of 32-bit values:
+ * always exactly 8 upper-case hex digits each. Anything else is an assertion failure. */
+#ifdef VERIF_NATIVE_REAL
+int vasprintf(char** outp, const char* fmt, va_list va_in) {
+  va_list va;
+  va_copy(va, va_in);
+#else
+uint32_t X_vasprintf(uint8_t* outp_, uint8_t* fmt_, uint8_t* va_) {
+  char** outp = (char**)outp_;
+  const char* fmt = (const char*)fmt_;
+  va_list va;
+  va_copy(va, *(va_list*)va_);
+#endif
+  char* buf = (char*)malloc(72);
+#ifdef VERIF_CBMC
+  __CPROVER_assume(buf != 0);
+#endif
+  unsigned n = 0, i = 0;
+  while (fmt[i]) {
+    int ok = fmt[i] == '%' && fmt[i + 1] == '0' && fmt[i + 2] == '8' && fmt[i + 3] == 'X' && n + 8 < 72;
+    ASSERT(ok, "UNMODELLED printf format");
+    ASSUME(ok);
+    uint32_t v = va_arg(va, uint32_t);
+    for (int k = 7; k >= 0; k--) { unsigned d = (v >> (4 * k)) & 15u; buf[n++] = (char)(d < 10 ? '0' + d : 'A' + d - 10); }
+    i += 4;
+  }
+  buf[n] = 0;
+  *outp = buf;
+  va_end(va);
+  return n;
+}
 int64_t w_md5(uint8_t* data, uint64_t n, uint32_t hex, uint32_t from_string, uint8_t* out, uint64_t cap);
 int64_t w_sha1(uint8_t* data, uint64_t n, uint32_t hex, uint32_t from_string, uint8_t* out, uint64_t cap);
 int64_t w_sha256(uint8_t* data, uint64_t n, uint32_t hex, uint32_t from_string, uint8_t* out, uint64_t cap);
@@ -172,8 +203,12 @@ void harness(void) {
   }
   msg[LEN] = 0;
 #if NFREE >= 1 && LEN > 0
+#ifdef POS
+  msg[(POS) < LEN ? (POS) : LEN - 1] = in_u8(); /* cell: concrete position of the free byte */
+#else
   uint64_t pos = in_range(0, LEN - 1);
   msg[pos] = in_u8();
+#endif
 #endif
 #if ALG == 0
   const unsigned dl = 16;
